@@ -146,12 +146,26 @@ def run_closure(ctx, idx):
         later = None
         if rng.random() < 0.45:
             from dclab import definitions as dfn
-            later = str(rng.choice(["metadata", "log", "metadata+log+table"]))
+            later = str(rng.choice(["metadata", "log", "metadata+log+table",
+                                    "replace scalar features"]))
             with dclab.new_dataset(p0) as ds:
                 src_meta = {sec: dict(ds.config[sec]) for sec in dfn.CFG_METADATA
                             if sec in ds.config}
             for f in files:
                 hmode = str(rng.choice(["append", "replace"]))
+                if later == "replace scalar features":
+                    # the scalar features of the file (incl. the index) are stored again in
+                    # replace mode, e.g. after they were recomputed
+                    import h5py
+                    with h5py.File(f, "r") as h5:
+                        ev = h5["events"] if "events" in h5 else {}
+                        sc = {k: ev[k][:] for k in ev
+                              if isinstance(ev[k], h5py.Dataset) and ev[k].ndim == 1
+                              and dfn.scalar_feature_exists(k)}
+                    with dclab.RTDCWriter(f, mode="replace") as hw:
+                        for k in sorted(sc):
+                            hw.store_feature(k, sc[k])
+                    continue
                 with dclab.RTDCWriter(f, mode=hmode) as hw:
                     if "metadata" in later:
                         hw.store_metadata(src_meta)
